@@ -272,6 +272,7 @@ static Scenario make_scenario(int idx, bool concurrent)
         case 13: {  // deferred_guarded direct path
             auto dg = std::make_shared<deferred_guarded<Cell, vrf::shared_timed_mutex_t>>(false);
             auto fut = std::make_shared<std::future<int>>();
+            auto futv = std::make_shared<std::future<void>>();  // modify_async with a functor returning void
             auto detach_caught = std::make_shared<int>(0);
             auto threw_id = std::make_shared<std::atomic<uint32_t>>(0);
             s.name = "deferred_guarded direct path (modify_detach, modify_async)";
@@ -288,7 +289,7 @@ static Scenario make_scenario(int idx, bool concurrent)
                 }
                 c.append_raw(id);
             };
-            s.thrower = [dg, fut, detach_caught, body] {
+            s.thrower = [dg, fut, futv, detach_caught, body] {
                 try {
                     dg->modify_detach([body](Cell& c) { body(c, 5); });
                 }
@@ -299,6 +300,7 @@ static Scenario make_scenario(int idx, bool concurrent)
                     body(c, 6);
                     return 6;
                 });
+                *futv = dg->modify_async([body](Cell& c) { body(c, 7); });
             };
             s.after = [dg, name = s.name](bool, long) {
                 if (vrf::held_count() != 0) vio("oracle:lock_not_released_after_throw", name);
@@ -306,7 +308,7 @@ static Scenario make_scenario(int idx, bool concurrent)
                 Win w(*h, false);
                 h->check("after throw");
             };
-            s.verify = [dg, fut, detach_caught, concurrent, threw_id, name = s.name](bool threw, long) {
+            s.verify = [dg, fut, futv, detach_caught, concurrent, threw_id, name = s.name](bool threw, long) {
                 long k = threw_id->load() == 0 ? 0 : static_cast<long>(threw_id->load()) - 4;  // which functor threw (if any)
                 threw = threw && k != 0;
                 std::vector<uint32_t> v;
@@ -322,12 +324,22 @@ static Scenario make_scenario(int idx, bool concurrent)
                 catch (const Injected&) {
                     fut_exc = true;
                 }
+                if (!vrf::is_ready(*futv)) vio("oracle:async_future_not_ready_after_drain", name, "\"void functor\"");
+                bool futv_exc = false;
+                try {
+                    futv->get();
+                }
+                catch (const Injected&) {
+                    futv_exc = true;
+                }
                 if (!concurrent) {
-                    // sequential: both calls took the direct path
+                    // sequential: all calls took the direct path
                     if ((threw && k == 1) != (*detach_caught == 1)) vio("oracle:exception_not_propagated_as_documented", name, "\"modify_detach direct path\"");
                     if ((threw && k == 2) != fut_exc) vio("oracle:exception_not_captured_as_documented", name, "\"modify_async\"");
+                    if ((threw && k == 3) != futv_exc) vio("oracle:exception_not_captured_as_documented", name, "\"modify_async (void functor)\"");
                 }
-                if (has(v, 5) == (threw && k == 1) || has(v, 6) == (threw && k == 2)) vio("oracle:object_state_wrong_after_throw", name, vrf::jnums(v));
+                if (has(v, 5) == (threw && k == 1) || has(v, 6) == (threw && k == 2) || has(v, 7) == (threw && k == 3))
+                    vio("oracle:object_state_wrong_after_throw", name, vrf::jnums(v));
             };
             s.partner = [dg] {
                 for (int i = 0; i < 2; i++) {
